@@ -320,107 +320,9 @@ impl Range {
         Ok(content_range_list)
     }
 
-    pub fn _parse_multipart_body(cursor: &mut Cursor<&[u8]>, mut content_range_list: Vec<ContentRange>) -> Result<Vec<ContentRange>, String> {
-
-        let mut buffer = Range::_parse_line_as_bytes(cursor);
-        let new_line_char_found = buffer.len() != 0;
-        let mut string = Range::_convert_bytes_array_to_string(buffer);
-
-        if !new_line_char_found {
-            return Ok(content_range_list)
-        };
-
-        let mut content_range: ContentRange = ContentRange {
-            unit: Range::BYTES.to_string(),
-            range: Range { start: 0, end: 0 },
-            size: "".to_string(),
-            body: vec![],
-            content_type: "".to_string()
-        };
-
-        let content_range_is_not_parsed = content_range.body.len() == 0;
-        let separator = [SYMBOL.hyphen, SYMBOL.hyphen, Range::STRING_SEPARATOR].join("");
-        if string.starts_with(separator.as_str()) && content_range_is_not_parsed {
-            //read next line - Content-Type
-            buffer = Range::_parse_line_as_bytes(cursor);
-            string = Range::_convert_bytes_array_to_string(buffer);
-        }
-
-        let content_type_is_not_parsed = content_range.content_type.len() == 0;
-        if string.starts_with(Header::_CONTENT_TYPE) && content_type_is_not_parsed {
-            let content_type = Response::_parse_http_response_header_string(string.as_str());
-            content_range.content_type = content_type.value.trim().to_string();
-
-            //read next line - Content-Range
-            buffer = Range::_parse_line_as_bytes(cursor);
-            string = Range::_convert_bytes_array_to_string(buffer);
-        }
-
-        let content_range_is_not_parsed = content_range.size.len() == 0;
-        if string.starts_with(Header::_CONTENT_RANGE) && content_range_is_not_parsed {
-            let content_range_header = Response::_parse_http_response_header_string(string.as_str());
-
-            let boxed_result = Range::_parse_content_range_header_value(content_range_header.value);
-            if boxed_result.is_ok() {
-                let (start, end, size) = boxed_result.unwrap();
-
-                content_range.size = size.to_string();
-                content_range.range.start = start as u64;
-                content_range.range.end = end as u64;
-            } else {
-                return Err(boxed_result.err().unwrap())
-            }
-
-
-
-            // read next line - empty line
-            buffer = Range::_parse_line_as_bytes(cursor);
-            string = Range::_convert_bytes_array_to_string(buffer);
-
-            if string.trim().len() > 0 {
-                return Err(Range::_ERROR_NO_EMPTY_LINE_BETWEEN_CONTENT_RANGE_HEADER_AND_BODY.to_string());
-            }
-
-            // read next line - separator between content ranges
-            buffer = Range::_parse_line_as_bytes(cursor);
-            string = Range::_convert_bytes_array_to_string(buffer);
-        }
-
-        let content_range_is_parsed = content_range.size.len() != 0;
-        let content_type_is_parsed = content_range.content_type.len() != 0;
-        if content_range_is_parsed && content_type_is_parsed {
-            let mut body : Vec<u8> = vec![];
-            body = [body, string.as_bytes().to_vec()].concat();
-
-            let mut buf = Vec::from(string.as_bytes());
-            let separator = [SYMBOL.hyphen, SYMBOL.hyphen, Range::STRING_SEPARATOR].join("");
-            while !buf.starts_with(separator.as_bytes()) {
-                buf = vec![];
-                cursor.read_until(b'\n', &mut buf).unwrap();
-                let separator = [SYMBOL.hyphen, SYMBOL.hyphen, Range::STRING_SEPARATOR].join("");
-                if !buf.starts_with(separator.as_bytes()) {
-                    body = [body, buf.to_vec()].concat();
-                }
-            }
-
-            let mut mutable_body : Vec<u8>  = body;
-            mutable_body.pop(); // remove /r
-            mutable_body.pop(); // remove /n
-
-
-            content_range.body = mutable_body;
-
-            content_range_list.push(content_range);
-        }
-
-        let boxed_result = Range::_parse_multipart_body(cursor, content_range_list);
-        return if boxed_result.is_ok() {
-            Ok(boxed_result.unwrap())
-        } else {
-            let error = boxed_result.err().unwrap();
-            Err(error)
-        }
-
+    pub fn _parse_multipart_body(cursor: &mut Cursor<&[u8]>, content_range_list: Vec<ContentRange>) -> Result<Vec<ContentRange>, String> {
+        // legacy name: the same reader with every failure reported as Err
+        Range::parse_multipart_body(cursor, content_range_list)
     }
 
     pub fn _parse_raw_content_range_header_value(unparsed_header_value: &str)-> Result<(i64, i64, i64), String> {
